@@ -365,6 +365,12 @@ func concRequests(r *rand.Rand, n int) []concReq {
 				q.Kind = "auto-head"
 			}
 		}
+		if r.Intn(12) == 0 {
+			// what a reverse proxy adds: nothing a request announces about ITSELF may change how any other request is served
+			k := r.Intn(7)
+			q.Header[[]string{"X-Forwarded-Prefix", "X-Forwarded-For", "X-Real-IP", "X-Forwarded-Host", "X-Http-Method-Override", "X-Original-URL", "X-Forwarded-Proto"}[k]] =
+				[]string{"/users", "10.1.2.3", "10.9.8.7", "other.example", "DELETE", "/tenant", "https"}[k]
+		}
 		out = append(out, q)
 	}
 	return out
